@@ -100,3 +100,496 @@ def item_categorical(repo, out):
 
 
 ITEMS = [item_categorical]
+
+
+# ---------------------------------------------------------------------------------------------------------------
+# Template matching (round 2): every function of katdal/categorical.py that Model/Categorical.v mirrors is matched
+# STATEMENT BY STATEMENT against a template of its source.  Holes of the template capture the decision pieces
+# (comparison operators, arithmetic constants, searchsorted sides, default arguments, numpy reduction names); they
+# are emitted into Gen/Generated.v as functions / constants and Proofs/CategoricalTieP.v proves, for all arguments,
+# that they are the operators and constants the Gallina model uses.  Anything else that differs from the template
+# (statement order, an extra or missing statement, another expression) is refused (TranslateError = broken tie).
+#
+# Template language (plain Python source, parsed with ast):
+#   H_name            hole: any constant expression (captured, validated by the emitter)
+#   HD_name           hole in a keyword argument that may be absent in the source (then the documented default)
+#   ANY_              matches any expression (error-message text only)
+#   CMP_name(a, b)    matches a comparison `a <op> b` with one operator; the operator is captured
+#   BIN_name(a, b)    matches `a <op> b` for a binary arithmetic operator; the operator is captured
+#   x.ATTR_name(...)  matches any attribute name in that position (np.zeros / np.empty, argmin / argmax); captured
+
+TEMPLATE = r'''
+class ComparableArrayWrapper:
+    def __init__(self, value):
+        self.unwrapped = value
+
+    def __eq__(self, other):
+        if isinstance(other, ComparableArrayWrapper):
+            other = other.unwrapped
+        if isinstance(self.unwrapped, np.ndarray) or isinstance(other, np.ndarray):
+            return np.array_equal(self.unwrapped, other)
+        else:
+            return CMP_w_eq(self.unwrapped, other)
+
+    def __ne__(self, other):
+        return not CMP_w_ne(self, other)
+
+    def __lt__(self, other):
+        if isinstance(other, ComparableArrayWrapper):
+            other = other.unwrapped
+        return CMP_w_lt(self.unwrapped, other)
+
+    def __gt__(self, other):
+        if isinstance(other, ComparableArrayWrapper):
+            other = other.unwrapped
+        return CMP_w_gt(self.unwrapped, other)
+
+    def __le__(self, other):
+        if isinstance(other, ComparableArrayWrapper):
+            other = other.unwrapped
+        return CMP_w_le(self.unwrapped, other)
+
+    def __ge__(self, other):
+        if isinstance(other, ComparableArrayWrapper):
+            other = other.unwrapped
+        return CMP_w_ge(self.unwrapped, other)
+
+    def __hash__(self):
+        return hash(self.unwrapped)
+
+    @staticmethod
+    def unwrap(v):
+        return v.unwrapped if isinstance(v, ComparableArrayWrapper) else v
+
+
+def unique_in_order(elements, return_inverse=H_uio_inverse_default):
+    elements = list(elements)
+    unique_elements, inverse = [], []
+    try:
+        lookup = collections.OrderedDict(zip(elements, len(elements) * [0]))
+    except TypeError:
+        lookup = {}
+        for element in elements:
+            token = tokenize(ComparableArrayWrapper.unwrap(element))
+            try:
+                index = lookup[token]
+            except KeyError:
+                index = len(unique_elements)
+                lookup[token] = index
+                unique_elements.append(element)
+            if return_inverse:
+                inverse.append(index)
+    else:
+        for index, element in enumerate(lookup):
+            lookup[element] = index
+        unique_elements = list(lookup.keys())
+        if return_inverse:
+            inverse = [lookup[element] for element in elements]
+    return (unique_elements, np.array(inverse, dtype=int)) \
+        if return_inverse else unique_elements
+
+
+class CategoricalData:
+    def __init__(self, sensor_values, events):
+        values, self.indices = unique_in_order(sensor_values, return_inverse=True)
+        self.unique_values = [ComparableArrayWrapper.unwrap(v) for v in values]
+        self.events = np.asarray(events)
+
+    @property
+    def _comparable_values(self):
+        return [ComparableArrayWrapper(value) for value in self.unique_values]
+
+    def _lookup(self, dumps):
+        preceding_events = BIN_lookup_dec(self.events.searchsorted(dumps, side=HD_lookup_side), H_lookup_dec)
+        if np.any(CMP_lookup_lo(preceding_events, H_lookup_lo)) or \
+                np.any(CMP_lookup_hi(preceding_events, len(self.indices))):
+            raise IndexError(ANY_)
+        return self.indices[preceding_events]
+
+    def __getitem__(self, key):
+        if isinstance(key, slice):
+            key = list(range(*key.indices(self.events[-1])))
+        elif np.asarray(key).dtype == bool and CMP_mask_len(len(np.asarray(key)), self.events[-1]):
+            key = np.nonzero(key)[0]
+        indices = self._lookup(key)
+        try:
+            values = [self.unique_values[index] for index in indices]
+        except TypeError:
+            return self.unique_values[indices]
+        if not values:
+            all_possible_values = np.array(self.unique_values)
+            dtype = all_possible_values.dtype
+            shape = all_possible_values.shape
+            return np.empty((0,) + shape[1:], dtype)
+        return np.array(values)
+
+    def __len__(self):
+        return len(self.indices)
+
+    def _bool_per_dump(self, bool_per_value):
+        bool_per_event = np.atleast_1d(np.array(bool_per_value)[self.indices])
+        bool_per_dump = np.ATTR_bpd_init(self.events[-1], dtype=bool)
+        for n, (start, end) in enumerate(zip(self.events[:-1], self.events[1:])):
+            bool_per_dump[start:end] = bool_per_event[n]
+        return bool_per_dump
+
+    def __eq__(self, other):
+        return self._bool_per_dump([CMP_c_eq(value, other) for value in self._comparable_values])
+
+    def __ne__(self, other):
+        return self._bool_per_dump([CMP_c_ne(value, other) for value in self._comparable_values])
+
+    def __lt__(self, other):
+        return self._bool_per_dump([CMP_c_lt(value, other) for value in self._comparable_values])
+
+    def __gt__(self, other):
+        return self._bool_per_dump([CMP_c_gt(value, other) for value in self._comparable_values])
+
+    def __le__(self, other):
+        return self._bool_per_dump([CMP_c_le(value, other) for value in self._comparable_values])
+
+    def __ge__(self, other):
+        return self._bool_per_dump([CMP_c_ge(value, other) for value in self._comparable_values])
+
+    def segments(self):
+        for start, end, ind in zip(self.events[:-1], self.events[1:], self.indices):
+            yield slice(start, end), self.unique_values[ind]
+
+    def add(self, event, value=H_add_value_default):
+        if value is not None:
+            try:
+                value_index = self._comparable_values.index(value)
+            except ValueError:
+                value_index = len(self.unique_values)
+                self.unique_values += [value]
+        else:
+            value_index = self._lookup(event)
+        event_index = self.events.searchsorted(event, side=HD_add_side)
+        before, after = event_index, (BIN_add_after(event_index, H_add_inc)
+                                      if CMP_add_coincide(self.events[event_index], event) else event_index)
+        self.indices = np.r_[self.indices[:before], [value_index], self.indices[after:]]
+        self.events = np.r_[self.events[:before], [event], self.events[after:]]
+
+    def remove(self, value):
+        try:
+            index = self._comparable_values.index(value)
+        except ValueError:
+            pass
+        else:
+            keep = (CMP_rm_keep(self.indices, index))
+            remap = np.arange(len(self.unique_values))
+            remap[index:] -= H_rm_dec
+            self.indices = remap[self.indices[keep]]
+            self.events = np.r_[self.events[:-1][keep], self.events[-1]]
+            del self.unique_values[index]
+
+    def add_unmatched(self, segments, match_dist=H_match_dist):
+        segments = np.asarray(segments)
+        unmatched = segments[CMP_unmatched(
+            np.abs(self.events[np.newaxis, :] - segments[:, np.newaxis]).ATTR_um_reduce(axis=H_um_axis), match_dist)]
+        for segm in unmatched:
+            try:
+                self.add(segm)
+            except IndexError:
+                pass
+
+    def align(self, segments):
+        segments_with_event = np.abs(self.events[np.newaxis, :] - segments[:, np.newaxis]).ATTR_align_reduce(
+            axis=H_align_axis)
+        events = segments[segments_with_event]
+        final = np.nonzero(CMP_align_keep(np.diff(events), H_align_zero))[0]
+        subset, self.indices = np.unique(self.indices[final], return_inverse=True)
+        self.unique_values = [self.unique_values[index] for index in subset]
+        self.events = np.r_[events[final], events[-1]]
+
+    def partition(self, segments):
+        events = self.events[:-1]
+        initial_indices = self.indices[BIN_part_dec(events.searchsorted(segments[:-1], side=HD_part_side),
+                                                    H_part_dec).clip(H_clip_lo, BIN_clip_hi(len(events), H_clip_hi))]
+        split_data = []
+        for start, end, initial_index in zip(segments[:-1], segments[1:], initial_indices):
+            segment_events = (CMP_part_lo(events, start)) & (CMP_part_hi(events, end))
+            cat_data = CategoricalData([], [])
+            cat_data.unique_values = list(self.unique_values)
+            cat_data.indices = self.indices[segment_events]
+            cat_data.events = events[segment_events] - start
+            if CMP_part_empty(len(cat_data.events), H_part_empty) or CMP_part_first(cat_data.events[0], H_part_first):
+                cat_data.indices = np.r_[initial_index, cat_data.indices]
+                cat_data.events = np.r_[0, cat_data.events, end - start]
+            else:
+                cat_data.events = np.r_[cat_data.events, end - start]
+            split_data.append(cat_data)
+        return split_data
+
+    def remove_repeats(self):
+        changes = np.nonzero([H_rr_first] + np.diff(self.indices).tolist())[0]
+        self.indices = self.indices[changes]
+        self.events = np.r_[self.events[changes], self.events[-1]]
+
+
+def concatenate_categorical(split_data, **kwargs):
+    if CMP_cc_single(len(split_data), H_cc_single):
+        return split_data[0]
+    segments = np.cumsum([0] + [cat_data.events[-1] for cat_data in split_data])
+    data = CategoricalData([], [])
+    split_values = [cat_data._comparable_values for cat_data in split_data]
+    inverse_splits = np.cumsum([0] + [len(vals) for vals in split_values])
+    values, inverse = unique_in_order(sum(split_values, []), return_inverse=True)
+    data.unique_values = [ComparableArrayWrapper.unwrap(v) for v in values]
+    indices, events = [], []
+    for n, cat_data in enumerate(split_data):
+        lookup = np.array(inverse[inverse_splits[n]:inverse_splits[BIN_cc_next(n, H_cc_next)]])
+        indices.append(lookup[cat_data.indices])
+        events.append(cat_data.events[:-1] + segments[n])
+    events.append([segments[-1]])
+    data.indices = np.concatenate(indices)
+    data.events = np.concatenate(events)
+    if not kwargs.get('allow_repeats', H_allow_repeats):
+        data.remove_repeats()
+    return data
+'''
+
+# methods of the two classes that are NOT mirrored by the model and therefore not matched (presentation / dtype only)
+UNMATCHED_METHODS = {'ComparableArrayWrapper': {'__repr__', '__str__'},
+                     'CategoricalData': {'__repr__', '__str__', 'dtype'}}
+KW_DEFAULTS = {'HD_lookup_side': 'left', 'HD_add_side': 'left', 'HD_part_side': 'left'}   # numpy's documented default
+
+CMPOPS = {ast.Eq: 'Eq', ast.NotEq: 'NotEq', ast.Lt: 'Lt', ast.LtE: 'LtE', ast.Gt: 'Gt', ast.GtE: 'GtE'}
+BINOPS = {ast.Add: 'Add', ast.Sub: 'Sub', ast.Mult: 'Mult'}
+
+
+def _strip_doc(fn):
+    body = list(fn.body)
+    if body and isinstance(body[0], ast.Expr) and isinstance(body[0].value, ast.Constant) \
+            and isinstance(body[0].value.value, str):
+        body = body[1:]
+    return body
+
+
+class _Unifier:
+    def __init__(self, where):
+        self.where = where
+        self.holes = {}
+
+    def fail(self, t, s, why):
+        line = getattr(s, 'lineno', None)
+        src = ''
+        try:
+            src = ast.unparse(s)[:90] if isinstance(s, ast.AST) else repr(s)[:90]
+        except Exception:
+            pass
+        raise TranslateError('%s%s: source differs from the mirrored template (%s): `%s`'
+                             % (self.where, ' line %s' % line if line else '', why, src))
+
+    def capture(self, name, value, s):
+        if name in self.holes and self.holes[name] != value:
+            self.fail(None, s, 'hole %s captured twice with different values' % name)
+        self.holes[name] = value
+
+    def const(self, s):
+        """constant expression allowed in a hole: literal int / bool / str / None, possibly negated"""
+        if isinstance(s, ast.Constant) and (s.value is None or isinstance(s.value, (bool, int, str))):
+            return s.value
+        if isinstance(s, ast.UnaryOp) and isinstance(s.op, ast.USub) and isinstance(s.operand, ast.Constant) \
+                and isinstance(s.operand.value, int) and not isinstance(s.operand.value, bool):
+            return -s.operand.value
+        self.fail(None, s, 'expected a literal constant')
+
+    def node(self, t, s):
+        if isinstance(t, ast.Name):
+            if t.id == 'ANY_':
+                if not isinstance(s, ast.expr):
+                    self.fail(t, s, 'expected an expression')
+                return
+            if t.id.startswith(('H_', 'HD_')):
+                self.capture(t.id, self.const(s), s)
+                return
+        if isinstance(t, ast.Call) and isinstance(t.func, ast.Name) and t.func.id.startswith('CMP_'):
+            if not (isinstance(s, ast.Compare) and len(s.ops) == 1 and type(s.ops[0]) in CMPOPS):
+                self.fail(t, s, 'expected a single comparison')
+            self.capture(t.func.id, CMPOPS[type(s.ops[0])], s)
+            self.node(t.args[0], s.left)
+            self.node(t.args[1], s.comparators[0])
+            return
+        if isinstance(t, ast.Call) and isinstance(t.func, ast.Name) and t.func.id.startswith('BIN_'):
+            if not (isinstance(s, ast.BinOp) and type(s.op) in BINOPS):
+                self.fail(t, s, 'expected a binary + - *')
+            self.capture(t.func.id, BINOPS[type(s.op)], s)
+            self.node(t.args[0], s.left)
+            self.node(t.args[1], s.right)
+            return
+        if type(t) is not type(s):
+            self.fail(t, s, 'expected %s' % type(t).__name__)
+        if isinstance(t, ast.Attribute) and t.attr.startswith('ATTR_'):
+            self.capture(t.attr, s.attr, s)
+            self.node(t.value, s.value)
+            return
+        if isinstance(t, ast.Call):
+            # keyword arguments with an optional-hole value may be absent in the source
+            tk = list(t.keywords)
+            sk = {k.arg: k for k in s.keywords}
+            if len(sk) != len(s.keywords):
+                self.fail(t, s, 'repeated keyword')
+            for k in tk:
+                if isinstance(k.value, ast.Name) and k.value.id.startswith('HD_') and k.arg not in sk:
+                    self.capture(k.value.id, KW_DEFAULTS[k.value.id], s)
+                elif k.arg not in sk:
+                    self.fail(t, s, 'keyword %s missing' % k.arg)
+                else:
+                    self.node(k.value, sk.pop(k.arg).value)
+            if sk:
+                self.fail(t, s, 'unexpected keyword(s) %s' % sorted(map(str, sk)))
+            self.node(t.func, s.func)
+            self.seq(t.args, s.args, s)
+            return
+        for f in t._fields:
+            if f in ('ctx', 'type_comment', 'kind'):
+                continue
+            a, b = getattr(t, f, None), getattr(s, f, None)
+            if isinstance(t, (ast.FunctionDef, ast.ClassDef)) and f == 'body':
+                continue            # bodies are matched by the caller (docstrings, unmatched methods)
+            self.value(a, b, s)
+
+    def value(self, a, b, s):
+        if isinstance(a, list):
+            if not isinstance(b, list):
+                self.fail(None, s, 'shape')
+            self.seq(a, b, s)
+        elif isinstance(a, ast.AST):
+            if not isinstance(b, ast.AST):
+                self.fail(a, s, 'missing part')
+            self.node(a, b)
+        elif a != b or type(a) is not type(b):
+            self.fail(None, s, 'expected %r, found %r' % (a, b))
+
+    def seq(self, ts, ss, s):
+        if len(ts) != len(ss):
+            self.fail(None, ss[len(ts)] if len(ss) > len(ts) else s,
+                      'expected %d item(s)/statement(s), found %d' % (len(ts), len(ss)))
+        for a, b in zip(ts, ss):
+            self.value(a, b, s)
+
+    def function(self, t, s):
+        self.node(t, s)              # name, args, defaults, decorators, returns
+        self.seq(_strip_doc(t), _strip_doc(s), s)
+
+
+def _match_templates(tree):
+    tt = ast.parse(TEMPLATE)
+    src_top = {n.name: n for n in tree.body if isinstance(n, (ast.FunctionDef, ast.ClassDef))}
+    names = [n.name for n in tree.body if isinstance(n, (ast.FunctionDef, ast.ClassDef))]
+    if len(names) != len(set(names)):
+        raise TranslateError('%s: a top-level name is defined twice' % REL)
+    u = _Unifier(REL)
+    for t in tt.body:
+        s = src_top.get(t.name)
+        if s is None or type(s) is not type(t):
+            raise TranslateError('%s: %s not found' % (REL, t.name))
+        if isinstance(t, ast.FunctionDef):
+            u.where = '%s:%s' % (REL, t.name)
+            u.function(t, s)
+            continue
+        u.where = '%s:%s' % (REL, t.name)
+        u.node(t, s)                 # class name, bases, decorators
+        skip = UNMATCHED_METHODS[t.name]
+        sbody = [n for n in _strip_doc(s) if not (isinstance(n, ast.FunctionDef) and n.name in skip)]
+        tnames = [n.name for n in t.body]
+        snames = [getattr(n, 'name', '<%s>' % type(n).__name__) for n in sbody]
+        if tnames != snames:
+            raise TranslateError('%s:%s: members (in order) expected %s, found %s' % (REL, t.name, tnames, snames))
+        for tm, sm in zip(t.body, sbody):
+            u.where = '%s:%s.%s' % (REL, t.name, tm.name)
+            u.function(tm, sm)
+    # the module must not rebind the mirrored names after their definition (monkey patching at import time)
+    mirrored = {t.name for t in tt.body}
+    for n in tree.body:
+        for x in ast.walk(n) if not isinstance(n, (ast.FunctionDef, ast.ClassDef)) else []:
+            if isinstance(x, (ast.Name, ast.Attribute)) and isinstance(getattr(x, 'ctx', None), (ast.Store, ast.Del)):
+                base = x
+                while isinstance(base, ast.Attribute):
+                    base = base.value
+                if isinstance(base, ast.Name) and base.id in mirrored:
+                    raise TranslateError('%s: module-level statement rebinds %s' % (REL, base.id))
+    return u.holes
+
+
+ZCMP = {'Eq': 'Z.eqb a b', 'NotEq': 'negb (Z.eqb a b)', 'Lt': 'Z.ltb a b', 'LtE': 'Z.leb a b',
+        'Gt': 'Z.ltb b a', 'GtE': 'Z.leb b a'}
+ZBIN = {'Add': 'Z.add a b', 'Sub': 'Z.sub a b', 'Mult': 'Z.mul a b'}
+CMPID = {'Eq': 0, 'NotEq': 1, 'Lt': 2, 'Gt': 3, 'LtE': 4, 'GtE': 5}     # numbering of Model/Categorical.v:cmp_fun
+
+
+def item_categorical_templates(repo, out):
+    try:
+        holes = _match_templates(_parse(repo, REL))
+    except TranslateError:
+        raise
+    except Exception as e:          # fail closed on anything unexpected
+        raise TranslateError('%s: template matcher raised %r' % (REL, e))
+    h = dict(holes)
+
+    def take(name):
+        if name not in h:
+            raise TranslateError('%s: hole %s not captured' % (REL, name))
+        return h.pop(name)
+
+    def zint(name):
+        v = take(name)
+        if isinstance(v, bool) or not isinstance(v, int):
+            raise TranslateError('%s: %s is not an integer literal (%r)' % (REL, name, v))
+        return '(%d)%%Z' % v
+
+    def boolean(name, allow_none=False):
+        v = take(name)
+        if not isinstance(v, bool):
+            raise TranslateError('%s: %s is not a bool literal (%r)' % (REL, name, v))
+        return 'true' if v else 'false'
+
+    def side(name):
+        v = take(name)
+        if v not in ('left', 'right'):
+            raise TranslateError('%s: %s is not a searchsorted side (%r)' % (REL, name, v))
+        return 'true' if v == 'right' else 'false'
+
+    def attr(name, table):
+        v = take(name)
+        if v not in table:
+            raise TranslateError('%s: %s = %r is not one of %s' % (REL, name, v, sorted(table)))
+        return table[v]
+
+    o = out.append
+    o('(* katdal/categorical.py, statement-by-statement template match: decision pieces of the mirrored functions *)')
+    for nm in ('lookup_lo', 'lookup_hi', 'mask_len', 'add_coincide', 'rm_keep', 'unmatched', 'align_keep',
+               'part_lo', 'part_hi', 'part_empty', 'part_first', 'cc_single'):
+        o('Definition catg_%s_cmp : Z -> Z -> bool := fun a b => %s.' % (nm, ZCMP[take('CMP_' + nm)]))
+    for nm in ('lookup_dec', 'add_after', 'part_dec', 'clip_hi', 'cc_next'):
+        o('Definition catg_%s_op : Z -> Z -> Z := fun a b => %s.' % (nm, ZBIN[take('BIN_' + nm)]))
+    for nm in ('lookup_dec', 'lookup_lo', 'add_inc', 'rm_dec', 'match_dist', 'um_axis', 'align_axis', 'align_zero',
+               'part_dec', 'clip_lo', 'clip_hi', 'part_empty', 'part_first', 'rr_first', 'cc_single', 'cc_next'):
+        o('Definition catg_%s : Z := %s.' % (nm, zint('H_' + nm)))
+    for nm in ('lookup_side', 'add_side', 'part_side'):
+        o('Definition catg_%s_right : bool := %s.' % (nm, side('HD_' + nm)))
+    o('Definition catg_uio_inverse_default : bool := %s.' % boolean('H_uio_inverse_default'))
+    o('Definition catg_allow_repeats_default : bool := %s.' % boolean('H_allow_repeats'))
+    v = take('H_add_value_default')
+    if v is not None:
+        raise TranslateError('%s: add(event, value=%r): the default must be None' % (REL, v))
+    o('Definition catg_add_value_default_is_none : bool := true.')
+    # np.zeros / np.ones initialise the comparison result; np.empty would be uninitialised memory (finding F38)
+    o('Definition catg_bpd_init : bool := %s.' % attr('ATTR_bpd_init', {'zeros': 'false', 'ones': 'true'}))
+    o('Definition catg_um_reduce_is_min : bool := %s.' % attr('ATTR_um_reduce', {'min': 'true', 'max': 'false'}))
+    o('Definition catg_align_reduce_is_argmin : bool := %s.'
+      % attr('ATTR_align_reduce', {'argmin': 'true', 'argmax': 'false'}))
+    # the six comparison methods of CategoricalData and of ComparableArrayWrapper, in the order == != < > <= >=
+    for pre, nm in (('CMP_c_', 'catg_cmp_methods'), ('CMP_w_', 'catg_wrapper_cmp_methods')):
+        ids = []
+        for m in ('eq', 'ne', 'lt', 'gt', 'le', 'ge'):
+            ids.append(CMPID[take(pre + m)])
+        if nm == 'catg_wrapper_cmp_methods':
+            ids[1] = {0: 1, 1: 0}.get(ids[1], ids[1])       # __ne__ is written `not self == other`
+        o('Definition %s : list Z := [%s].' % (nm, '; '.join('%d' % i for i in ids)))
+    if h:
+        raise TranslateError('%s: holes captured but not emitted: %s' % (REL, sorted(h)))
+
+
+ITEMS = [item_categorical, item_categorical_templates]
